@@ -80,6 +80,30 @@ PROPS = {
         assumptions=["rotation stays within the exporter's output kind (cross-kind rotation is undefined by the property)"],
         note="Grade S.",
         stub=[STUB_FS]),
+    "C15": dict(
+        title="a named output appears under its final name only when complete",
+        level="fault_enumeration", design_ref="DESIGN.md §4 C15",
+        stages=[dict(engine="pipeline", flavour="asan", quick=3200, thorough=200000)],
+        technique="deterministic simulation, crash-point enumeration: the invariant 'every file under a final name is an intact older file or a complete output' is evaluated after every output-related simulated system call (= process killed right after it) of seeded rotation scenarios on SimFS",
+        rule="one run = one seeded scenario (plain/gzip/xz; rotations onto fresh names, onto names holding an older file, onto the name currently open; destruction with/without buffered data); every write/writev/rename/close/open of the scenario is a crash point at which the invariant is evaluated (coverage.counters.crash_points_checked); non-trivial = a block reached a closed output",
+        assumptions=["crash = process death: bytes already passed to write()/rename() survive, user-space buffers vanish (no power-loss model; the library never fsyncs)",
+                     "SimFS models rename() as atomic replacement"],
+        note="Grade S. Exhaustive over the crash points of each scenario; scenarios are sampled.",
+        exhaustive_note="every output-related system call of each explored scenario is a checked crash point; the scenario space itself is sampled",
+        stub=[STUB_FS]),
+    "C16": dict(
+        title="output failures are reported, never swallowed; rotation recovers",
+        level="fault_enumeration", design_ref="DESIGN.md §4 C16",
+        stages=[dict(engine="fault", flavour="asan", quick=64 * 60, thorough=256 * 1500, args=["--slots", "64"], args_thorough=["--slots", "256"])],
+        technique="deterministic simulation with write-fault injection: for each seeded scenario a fault-free pass enumerates every write call; the faulted pass makes the j-th write of op i fail (ENOSPC/EIO/short/EINTR, once or persistently) and checks the report-and-recover protocol against SimFS contents and the exporter model",
+        rule="one run = (scenario seed, fault slot): scenarios with <= slots faults are enumerated exhaustively, longer ones sampled evenly; distinct = distinct event-log hash; non-trivial = the fault fired on an output that was then closed, or an exception was delivered",
+        assumptions=["a short write still accepts >= 1 byte; EINTR is not persistent (either would hang any retry loop, incl. libstdc++'s)",
+                     "loss is decided from SimFS: the closed output differs from the bytes of the fault-free pass",
+                     "recovery bound: rotate_output to a healthy destination must return normally within two attempts after the first exception",
+                     "destruction is outside the guarantee"],
+        note="Grade S.",
+        exhaustive_note="per scenario all (op, write call, kind, persistence) combinations when they fit the slot budget (coverage.counters.scenarios_enumerated_exhaustively), else an even sample",
+        stub=[STUB_FS]),
     "C17": dict(
         title="timestamp offsets exact, invertible, never negative within a block",
         level="exploration", design_ref="DESIGN.md §4 C17",
